@@ -56,8 +56,11 @@ type subRec struct {
 	joined     bool
 	notifies   int
 	lastNotify []string
+	lastStart  int
 	base       []string
 	tainted    bool // a (masked) mismatch was already seen: no further set comparisons
+	lateRace   bool // joined an existing watcher while events of the range were in flight
+	sawAll     bool // nothing had ever been registered under the prefix when it subscribed
 }
 
 type recCC struct {
@@ -65,8 +68,9 @@ type recCC struct {
 	prefix  string
 	updates int
 	last    []string
-	res     resolver.Resolver
-	tainted bool
+	res      resolver.Resolver
+	tainted  bool
+	lateRace bool
 }
 
 func (c *recCC) UpdateState(s resolver.State) error {
@@ -109,6 +113,9 @@ type world struct {
 	allPubs   []*discov.Publisher
 	calm      bool
 	faulty    bool
+	joinsBegun map[string]int
+	clk        int
+	pendingClass, pendingMsg string
 	log       []string
 	nOps      int
 }
@@ -148,6 +155,21 @@ func sameSet(a, b map[string]bool) bool {
 	return true
 }
 
+// scenario classes of the defects this check has found in go-zero (reported; see RESULTS.md).
+// A run that shows one of them goes on, and if it then shows any other violation, that one is
+// reported instead: the recorded classes must not hide anything else.  (Static on purpose:
+// replays and the shrinker run without the driver's list of known findings.)
+var recorded = map[string]bool{
+	"stale-value-after-update-in-place":             true,
+	"exclusive-value-lost-after-update-in-place":    true,
+	"value-lost-after-reload-with-changed-value":    true,
+	"stale-value-after-reload-with-changed-value":   true,
+	"exclusive-snapshot-ignores-registration-order": true,
+	"concurrent-first-subscribers-race":             true,
+	"late-subscriber-races-with-watch-event":        true,
+	"reload-deadlock-holding-cluster-lock":          true,
+}
+
 // fail reports a violation unless its class is masked for development.
 func (w *world) fail(class, format string, a ...any) {
 	if masked[class] {
@@ -157,7 +179,23 @@ func (w *world) fail(class, format string, a ...any) {
 		}
 		return
 	}
+	if recorded[class] {
+		if w.pendingClass == "" {
+			w.pendingClass, w.pendingMsg = class, fmt.Sprintf(format, a...)
+			if w.r.Tracing() {
+				w.r.Logf("RECORDED-CLASS %s: %s", class, w.pendingMsg)
+			}
+		}
+		return
+	}
 	w.r.Fail(class, format, a...)
+}
+
+// flush reports the first recorded-class violation of the run when nothing else was found.
+func (w *world) flush() {
+	if w.pendingClass != "" && !w.r.Failed() {
+		w.r.Fail(w.pendingClass, "%s", w.pendingMsg)
+	}
 }
 
 // safety: at any time a view may only contain values that were registered under the prefix.
@@ -170,84 +208,142 @@ func (w *world) safety(who, prefix string, vals []string) {
 	}
 }
 
-// expected: the property's right hand side, computed from the store (the live registrations).
-func (w *world) expected(prefix string, excl bool) map[string]bool {
-	exp := map[string]bool{}
+// expected: the property's right hand side, computed from the store (the live
+// registrations), as an interval: required <= Values() <= allowed.
+//
+// plain subscriber: both are { value(k) : k live under the prefix }.
+//
+// exclusive subscriber ("only the most recently registered key of each value counts"): a
+// value no live key holds is forbidden; a value whose most recent registration (highest
+// revision PUT of that value) is a key that is still live with that value is required.  A
+// value that is held only by keys which registered it before a later registrant of the same
+// value went away again is optional: whether such a key still counts depends on whether the
+// subscriber saw the later registration as an event (evicted for good) or only knows the
+// current snapshot, and the property text does not decide that.
+//
+// exact: the exclusive subscriber has seen every registration of the prefix as an event, in
+// order (it subscribed before anything was registered, no reload, no second stream, no
+// snapshot with a shared value): then the optional case does not exist - a key that was
+// superseded by a later registrant of its value is out for good - and the view must be
+// exactly the required set.
+func (w *world) expected(prefix string, excl, exact bool) (required, allowed map[string]bool) {
+	required, allowed = map[string]bool{}, map[string]bool{}
 	live := w.st.live(prefix)
-	if !excl {
-		for _, v := range live {
-			exp[v] = true
-		}
-		return exp
+	for _, v := range live {
+		allowed[v] = true
 	}
-	// exclusive: only the most recently registered key of each value counts
+	if !excl {
+		return allowed, allowed
+	}
 	for v, k := range w.st.lastPut[prefix] {
 		if cur, ok := live[k]; ok && cur == v {
-			exp[v] = true
+			required[v] = true
 		}
 	}
-	return exp
+	if exact {
+		w.r.Probe("exclusive-exact-oracle")
+		return required, required
+	}
+	return required, allowed
+}
+
+// exactExclusive: see expected.
+func (w *world) exactExclusive(s *subRec) bool {
+	vt := w.st.view(s.prefix)
+	return s.excl && s.sawAll && vt.snapshots <= 1 && !vt.dupWatch && len(vt.snapAmbig) == 0
+}
+
+func within(got, required, allowed map[string]bool) bool {
+	for v := range got {
+		if !allowed[v] {
+			return false
+		}
+	}
+	for v := range required {
+		if !got[v] {
+			return false
+		}
+	}
+	return true
 }
 
 // classify names the scenario class of a view mismatch (history features only).
-func (w *world) classify(prefix string, excl bool, got, exp map[string]bool) string {
+func (w *world) classify(prefix string, excl, lateRace bool, got, required, allowed map[string]bool) string {
 	var extra, missing []string
 	for v := range got {
-		if !exp[v] {
+		if !allowed[v] {
 			extra = append(extra, v)
 		}
 	}
-	for v := range exp {
+	for v := range required {
 		if !got[v] {
 			missing = append(missing, v)
 		}
 	}
 	vt := w.st.view(prefix)
-	// (1) only stale values, each of which was overwritten in place (by a delivered PUT of
-	// the same key, or by a reload snapshot in which the key had another value)
-	if len(missing) == 0 {
-		explained, byReload := true, false
-		for _, v := range extra {
-			switch {
-			case vt.reloadOverwritten[v]:
-				byReload = true
-			case vt.overwritten[v]:
-			default:
-				explained = false
+	live := w.st.live(prefix)
+	// every differing value is attributed to a recorded scenario class if the history has the
+	// feature that class needs; one value without such a feature makes the mismatch generic
+	causes := map[string]bool{}
+	unexplained := false
+	for _, v := range extra {
+		switch {
+		case vt.overwritten[v] || (vt.dupWatch && vt.multiValued(v)):
+			// stale value that was overwritten in place by a delivered PUT of the same key (with
+			// two concurrent streams the order of application is not observable: any key that
+			// was announced with v and with another value counts)
+			causes["stale-value-after-update-in-place"] = true
+		case vt.reloadOverwritten[v]:
+			// ... or by a reload snapshot in which the key had another value
+			causes["stale-value-after-reload-with-changed-value"] = true
+		case excl && vt.snapAmbig[v]:
+			causes["exclusive-snapshot-ignores-registration-order"] = true
+		case vt.dupWatch:
+			causes["concurrent-first-subscribers-race"] = true
+		case lateRace:
+			causes["late-subscriber-races-with-watch-event"] = true
+		default:
+			unexplained = true
+		}
+	}
+	for _, v := range missing {
+		switch {
+		case excl && len(vt.overwritten) > 0 && vt.movedTo(live, v):
+			// exclusive: the key holding v was updated in place before; its stale entry under the
+			// old value makes a later eviction of the old value hit its current registration
+			causes["exclusive-value-lost-after-update-in-place"] = true
+		case vt.reloadNew[v]:
+			// some key got v in a reload that changed the key's value (handleChanges announces the
+			// new value, then removes the key)
+			causes["value-lost-after-reload-with-changed-value"] = true
+		case excl && (vt.snapAmbig[v] || vt.snapshots >= 2):
+			// exclusive: a snapshot (initial load, reload, the registry's current values handed to
+			// a late subscriber) carries no registration order: v was held by two keys in a
+			// snapshot (which one "registered last" is decided by map iteration order), or the
+			// value-only diff of a reload could not see that the holder registered again
+			causes["exclusive-snapshot-ignores-registration-order"] = true
+		case vt.dupWatch:
+			// two first subscribers raced through Registry.Monitor: both loaded a snapshot (the
+			// later one found nothing new to announce, so its listener never got the initial
+			// values) and both started a watch stream, so two goroutines feed the listeners
+			causes["concurrent-first-subscribers-race"] = true
+		case lateRace:
+			// attached to an existing watcher while events were in flight (Monitor hands over the
+			// registry's current values, handleWatchEvents calls the listeners it captured before
+			// applying the events)
+			causes["late-subscriber-races-with-watch-event"] = true
+		default:
+			unexplained = true
+		}
+	}
+	if !unexplained {
+		for _, c := range []string{"stale-value-after-update-in-place", "exclusive-value-lost-after-update-in-place",
+			"stale-value-after-reload-with-changed-value", "value-lost-after-reload-with-changed-value",
+			"exclusive-snapshot-ignores-registration-order", "concurrent-first-subscribers-race", "late-subscriber-races-with-watch-event"} {
+			if causes[c] {
+				return c
 			}
 		}
-		if explained {
-			if byReload {
-				return "stale-value-after-reload-with-changed-value"
-			}
-			return "stale-value-after-update-in-place"
-		}
-	}
-	// (2) exclusive: every differing value was held by two keys in a snapshot
-	if excl {
-		all := true
-		for _, v := range append(append([]string{}, extra...), missing...) {
-			if !vt.snapAmbig[v] {
-				all = false
-			}
-		}
-		if all {
-			return "exclusive-view-depends-on-snapshot-order"
-		}
-	}
-	// (2b) a live value is missing and two first subscribers raced through Registry.Monitor
-	// (both loaded a snapshot, the later one found nothing new to announce)
-	if len(missing) > 0 && vt.dupWatch {
-		return "concurrent-first-subscribers-miss-initial-values"
-	}
-	// (3) a live value is missing after a reload that changed some key's value
-	if len(missing) > 0 && vt.reloadChanged {
-		return "value-lost-after-reload-with-changed-value"
-	}
-	// (4) exclusive: a live value is missing after some key was updated in place (the stale
-	// entry of that key makes the eviction hit the key's current registration)
-	if excl && len(missing) > 0 && len(vt.overwritten) > 0 {
-		return "exclusive-value-lost-after-update-in-place"
 	}
 	kind := "view-mismatch"
 	switch {
@@ -271,16 +367,20 @@ func (w *world) checkViews(when string) {
 			continue
 		}
 		got := setOf(s.sub.Values())
-		exp := w.expected(s.prefix, s.excl)
-		if !sameSet(got, exp) {
+		req, allow := w.expected(s.prefix, s.excl, w.exactExclusive(s))
+		if !within(got, req, allow) {
 			s.tainted = true
-			w.fail(w.classify(s.prefix, s.excl, got, exp), "%s: %s (exclusive=%v) Values()=%v, live registrations under %s give %v (live keys %v); history: %s",
-				when, s.name, s.excl, sorted(got), s.prefix, sorted(exp), fmtLive(w.st.live(s.prefix)), w.history())
+			want := fmt.Sprint(sorted(allow))
+			if s.excl {
+				want = fmt.Sprintf("at least %v and at most %v", sorted(req), sorted(allow))
+			}
+			w.fail(w.classify(s.prefix, s.excl, s.lateRace, got, req, allow), "%s: %s (exclusive=%v) Values()=%v, live registrations under %s give %s (live keys %v); history: %s",
+				when, s.name, s.excl, sorted(got), s.prefix, want, fmtLive(w.st.live(s.prefix)), w.history())
 		}
 	}
 	if c := w.cc; c != nil && c.res != nil && !c.tainted {
 		got := setOf(c.last)
-		exp := w.expected(c.prefix, false)
+		exp, _ := w.expected(c.prefix, false, false)
 		switch {
 		case len(got) != len(c.last):
 			c.tainted = true
@@ -288,7 +388,13 @@ func (w *world) checkViews(when string) {
 		case len(exp) <= subsetMax:
 			if !sameSet(got, exp) {
 				c.tainted = true
-				cls := w.classify(c.prefix, false, got, exp)
+				req := exp
+				if len(got) == subsetMax {
+					// the resolver's own view holds more than 32 values (stale ones included) and
+					// was truncated: what is missing says nothing, name the class by the extras
+					req = map[string]bool{}
+				}
+				cls := w.classify(c.prefix, false, c.lateRace, got, req, exp)
 				if cls == "view-mismatch" || cls == "stale-value" || cls == "missing-value" {
 					cls = "resolver-" + cls
 				}
@@ -311,14 +417,14 @@ func (w *world) checkViews(when string) {
 						rest[v] = true
 					}
 				}
-				cls := w.classify(c.prefix, false, got, rest)
+				cls := w.classify(c.prefix, false, c.lateRace, got, rest, rest)
 				if cls == "stale-value" {
 					cls = "resolver-subset"
 				}
 				w.fail(cls, "%s: %d live addresses; resolver's last UpdateState contains %v which are not live", when, len(exp), sorted(extra))
 			case len(got) != subsetMax:
 				c.tainted = true
-				cls := w.classify(c.prefix, false, got, exp)
+				cls := w.classify(c.prefix, false, c.lateRace, got, exp, exp)
 				if cls == "missing-value" {
 					cls = "resolver-subset"
 				}
@@ -378,6 +484,43 @@ func (w *world) op(format string, a ...any) {
 	}
 }
 
+// joinWindow brackets a NewSubscriber call; the returned function reports whether the
+// subscriber attached to an already watched range while events of that range were in
+// flight (delivered to go-zero within the last few virtual seconds, during the call, or
+// not delivered yet).  Used only to name the scenario class of a mismatch.
+func (w *world) joinWindow(prefix string) func() bool {
+	if w.joinsBegun == nil {
+		w.joinsBegun = map[string]int{}
+	}
+	late := w.joinsBegun[prefix] > 0
+	w.joinsBegun[prefix]++
+	vt := w.st.view(prefix)
+	upToDate := func() bool {
+		live := w.st.live(prefix)
+		if len(live) != len(vt.cur) {
+			return false
+		}
+		for k, v := range live {
+			if vt.cur[k] != v {
+				return false
+			}
+		}
+		return true
+	}
+	rev, del := w.st.rev, vt.deliveries
+	recent := vt.deliveries > 0 && time.Since(vt.lastDelivery) <= 5*time.Second
+	lag := !upToDate()
+	return func() bool {
+		// which of two overlapping joins reaches the registry first is the scheduler's choice
+		late := late || w.joinsBegun[prefix] >= 2
+		race := late && (recent || lag || rev != w.st.rev || del != vt.deliveries || !upToDate())
+		if race {
+			w.r.Probe("late-join-with-events-in-flight")
+		}
+		return race
+	}
+}
+
 // join creates a subscriber (in its own task: a hang must become a verdict).
 func (w *world) join(s *subRec) *simrt.Task {
 	return w.r.Go("join-"+s.name, func() {
@@ -390,7 +533,10 @@ func (w *world) join(s *subRec) *simrt.Task {
 		if s.excl {
 			w.markAmbiguous(s.prefix)
 		}
+		done := w.joinWindow(s.prefix)
 		sub, err := discov.NewSubscriber(w.endpoints, s.key, opts...)
+		s.lateRace = done()
+		s.sawAll = len(w.st.ever[s.prefix]) == 0 // still nothing registered now that it is attached
 		if err != nil {
 			w.r.Fail("subscribe-error", "NewSubscriber(%s): %v", s.key, err)
 			return
@@ -401,8 +547,15 @@ func (w *world) join(s *subRec) *simrt.Task {
 		s.sub = sub
 		sub.AddListener(func() {
 			s.notifies++
-			s.lastNotify = sortedCopy(sub.Values())
-			w.safety(s.name, s.prefix, s.lastNotify)
+			w.clk++
+			start := w.clk
+			vals := sortedCopy(sub.Values())
+			// notifications may overlap (two watch goroutines): the one that STARTED last read
+			// the view after the last change
+			if start > s.lastStart {
+				s.lastStart, s.lastNotify = start, vals
+			}
+			w.safety(s.name, s.prefix, vals)
 		})
 		s.base = sortedCopy(sub.Values())
 		s.joined = true
@@ -483,6 +636,7 @@ func (w *world) leasesOf(p *pubRec) []*lease {
 func discovScenario(r *simrt.Run, tier string) {
 	t := r.Tape
 	w := &world{r: r, t: t, endpoints: []string{etcdHost}}
+	defer w.flush()
 	thorough := tier == "thorough"
 
 	// ---- shape of the run
@@ -581,27 +735,50 @@ func discovScenario(r *simrt.Run, tier string) {
 		"faults": fmt.Sprintf("%+v", w.st.fc), "calm_exact_checks_after_each_op": w.calm})
 
 	// ---- subscribers
+	// (one after the other unless drawn otherwise: two first subscribers racing through
+	// Registry.Monitor is a scenario class of its own)
+	concurrentJoins := t.Chance(1, 5)
 	var joins []*simrt.Task
-	joins = append(joins, w.join(w.subs[0]))
-	if lateAt == 0 {
-		joins = append(joins, w.join(w.subs[1]))
+	started := func(tk *simrt.Task) bool {
+		joins = append(joins, tk)
+		if concurrentJoins {
+			return true
+		}
+		if !r.JoinTimeout(10*time.Minute, tk) {
+			if w.faulty {
+				return true // Gets may be failing; the wait after the faults decides
+			}
+			r.Fail("subscribe-stuck", "NewSubscriber / resolver Build did not return within 10 virtual minutes without any fault: %v", r.AliveTasks())
+			return false
+		}
+		return true
+	}
+	if !started(w.join(w.subs[0])) {
+		return
+	}
+	if lateAt == 0 && !started(w.join(w.subs[1])) {
+		return
 	}
 	if useResolver {
 		w.cc = &recCC{w: w, prefix: prefixes[0]}
-		joins = append(joins, r.Go("build-resolver", func() {
+		if !started(r.Go("build-resolver", func() {
 			b := resolver.Get(scheme)
 			if b == nil {
 				r.Fail("resolver-not-registered", "scheme %s is not registered", scheme)
 				return
 			}
 			u, _ := url.Parse(fmt.Sprintf("%s://%s/%s", scheme, etcdHost, keyNames[0]))
+			done := w.joinWindow(prefixes[0])
 			res, err := b.Build(resolver.Target{URL: *u}, w.cc, resolver.BuildOptions{})
+			w.cc.lateRace = done()
 			if err != nil {
 				r.Fail("resolver-build-error", "Build: %v", err)
 				return
 			}
 			w.cc.res = res
-		}))
+		})) {
+			return
+		}
 	}
 	if !w.faulty {
 		if !r.JoinTimeout(10*time.Minute, joins...) {
@@ -660,14 +837,25 @@ func discovScenario(r *simrt.Run, tier string) {
 	}
 	r.MarkBackground(bg)
 	stable, prev := 0, ""
+	abandoned := map[int]int{}
 	for round := 0; round < 12 && stable < 2; round++ {
 		r.Sleep(30 * time.Second)
 		r.Quiesce()
 		now := fmt.Sprint(w.st.rev, len(w.st.leases))
 		caught := true
 		for _, wt := range w.st.watchers {
-			if !wt.caughtUp() {
-				caught = false
+			if wt.caughtUp() {
+				continue
+			}
+			// a stream nobody has received from for a whole round is abandoned (go-zero keeps
+			// only the latest cancel function per key, so a superseded stream is never
+			// cancelled); it cannot change any view any more
+			if wt.inSend && abandoned[wt.id] == wt.sent+1 {
+				continue
+			}
+			caught = false
+			if wt.inSend {
+				abandoned[wt.id] = wt.sent + 1
 			}
 		}
 		for _, s := range w.subs {
